@@ -580,6 +580,41 @@ func (c *Ctx) PathsCarryDAG(target *ssa.BasicBlock, alts []Alt) bool {
 		return false
 	}
 	var rec func(t *ssa.BasicBlock) bool
+	// edgeCarries: the edge p→d carries an alternative — by the fact of the branch taken, or, when the branch at p is
+	// on a short-circuit value (a && b, a || b merged in p), by every way into p that is compatible with the edge: a way
+	// whose contribution contradicts the edge is not a path; one whose contribution is a test carries that test's
+	// outcome. decided is false when p's branch is not of that kind.
+	edgeCarries := func(p, d *ssa.BasicBlock) (carried, decided bool) {
+		ef := edgeFact(c, p, d)
+		if match(ef) {
+			return true, true
+		}
+		if len(ef) != 1 {
+			return false, false
+		}
+		ph, isPhi := strip(ef[0].Cond).V.(*ssa.Phi)
+		if !isPhi || ph.Block() != p || len(ph.Edges) != len(p.Preds) {
+			return false, false
+		}
+		for i, e := range ph.Edges {
+			q := p.Preds[i]
+			if k, isConst := e.(*ssa.Const); isConst && k.Value != nil {
+				if (k.Value.ExactString() == "true") != ef[0].Val {
+					continue
+				}
+			} else {
+				cx, v := normFact(c.E(e), ef[0].Val)
+				if match([]Fact{{Cond: cx, Val: v}}) {
+					continue
+				}
+			}
+			if match(edgeFact(c, q, p)) || rec(q) {
+				continue
+			}
+			return false, true
+		}
+		return true, true
+	}
 	rec = func(t *ssa.BasicBlock) bool {
 		switch state[t] {
 		case 1, 2:
@@ -594,11 +629,21 @@ func (c *Ctx) PathsCarryDAG(target *ssa.BasicBlock, alts []Alt) bool {
 				res = true
 				break
 			}
+			if len(d.Preds) == 1 {
+				if carried, decided := edgeCarries(d.Preds[0], d); decided {
+					res = carried
+					break
+				}
+			}
 			if len(d.Preds) > 1 {
 				all := true
 				for _, p := range d.Preds {
-					if match(edgeFact(c, p, d)) {
-						continue
+					if carried, decided := edgeCarries(p, d); decided {
+						if carried {
+							continue
+						}
+						all = false
+						break
 					}
 					if !rec(p) {
 						all = false
